@@ -21,7 +21,7 @@ def run(report, tier):
                       "(same name when self-conjugate), twice is the identity, unknown labels are wrapped unchanged",
                 bounds=f"all {H.N_EVTGEN} EvtGen names, all {H.N_PDG} PDG names, {len(H.UNKNOWN_LABELS)} unknown labels",
                 symbolic="none (names are dictionary keys; the solver drives and closes the enumeration)",
-                shards=16, timeout=600, sample={"name": "anti-B_s0", "conjugate": "B_s0"}),
+                shards=16, timeout=600, concrete_body=True, sample={"name": "anti-B_s0", "conjugate": "B_s0"}),
         Harness(name="multiset", module="harness.c04", body="body_multiset",
                 sig="sel: int, m0: int, m1: int, m2: int, m3: int, bf: int, meta_i: int, meta_s: str",
                 n_sel=H.N_MULTISET, pre=["len(meta_s) <= 3"],
